@@ -59,6 +59,15 @@ def big_int(x, log=None):
     return r
 
 
+def scheduled(x, log=None, bonus=0.0):
+    """number of ones + bonus * first bit: `bonus` is a keyword argument the caller re-binds after constructing the optimizer"""
+    t0, d = _enter(x)
+    a = np.asarray(x).astype(np.float64)
+    r = a.sum(axis=1) + bonus * a[:, 0] - 0.5 * bonus * a[:, -1]
+    _leave("fit", log, t0, d, x)
+    return r
+
+
 def sphere(x, log=None):
     """real vectors -> -(sum of squares)"""
     t0, d = _enter(x)
